@@ -32,7 +32,7 @@ class C02(FprCheck):
         rng = self.rng
         n = 60 if self.tier == "quick" else 1200
         for ref, ci in self.sample_confs(n):
-            o = MG.gen_opts(rng)
+            o = MG.cap_opts(ref, MG.gen_opts(rng))
             mol = MG.load_ref(ref)
             heavy = [a.GetIdx() for a in mol.GetAtoms() if a.GetAtomicNum() > 1]
             qs = MG.gen_queries(rng, o, 2)
